@@ -30,6 +30,7 @@ META = {
                     "for non-mutation, as the statement requires"],
 }
 REQUIRED_CLASSES = ["operand:data_with_exact_zeros"]
+REQUIRED_REACH = ['general/faser_transform.py:tm.copy', 'general/faser_transform.py:tm.gTM', 'general/faser_screw.py:Screw.copy', 'general/faser_screw.py:Screw.__add__', 'general/basic_helpers.py:localToGlobal', 'kinematics/arm_model.py:Arm.__init__', 'kinematics/sp_model.py:SP.__init__']
 REQUIRED_CLAUSES = ["no_mutation", "no_alias", "mutate_result", "fresh_defaults", "defaults_table", "ctor.arm", "ctor.sp", "mr.args"]
 
 
